@@ -31,7 +31,11 @@ def entry_points(g):
 def helpers(g):
     F = g.f("wow_world_messages")
     hs = {}
-    for fn in F.all("fn", lambda p: p.endswith("::read_server_body") or p.endswith("::read_client_body")):
+    def calls_read_body(fn):
+        return fn.get("hir") is not None and any(H.tag(x) == "call" and (H.call_path(x) or "").endswith("::read_body") for x in H.walk(fn["hir"]))
+    for fn in F.all("fn", lambda p: p.startswith("crate::helper::") and "::expected::" in p):
+        if not calls_read_body(fn) or fn["name"].startswith(("expect_", "tokio_expect_", "astd_expect_")):
+            continue
         s = helper_summary(g, "wow_world_messages", fn)
         if s:
             hs[fn["path"]] = s
@@ -50,6 +54,33 @@ def norm_len(v):
     if v is not None and v[0] == "sf":
         return (v[1], k)
     return None
+
+
+def run_opcode_width(ctx):
+    """C04: the opcode taken from the header reaches its comparison (typed expect helpers) or dispatch (opcode-enum readers) at its
+    full wire width - a narrowing cast on the way makes every undefined opcode that aliases a defined one be accepted"""
+    st = state()
+    g = st["g"]
+    hs = helpers(g)
+    n = 0
+    for ep in entry_points(g):
+        fn = ep["fn"]
+        fr = FrameReader(g, "wow_world_messages", fn, hs)
+        fr.op_len = 4 if ep["dir"] == "client" else 2
+        try:
+            paths = fr.run()
+        except Exception:  # noqa  (shape problems are reported by frame.affine in C02)
+            continue
+        n += 1
+        seen = set()
+        for p in paths:
+            for kind_, what in p.notes:
+                if kind_ == "opcode-narrowed" and what not in seen:
+                    seen.add(what)
+                    ctx.violate("opc.full-width", f"{gpath('wow_world_messages', fn['path'])}|{what}", f"{fn['path']}: the opcode read from the {ep['dir']} header is narrowed (`{what}`) before it is compared / dispatched: "
+                                f"an undefined opcode that equals a defined one modulo 2^{what.split(' as ')[1][1:]} is accepted as that message", fn["file"], fn["line"])
+    ctx.rule("opc.full-width", n, floor=FRAME_FLOOR, note="reader entry points: the header's opcode is not narrowed on its way to the comparison / dispatch")
+    return n
 
 
 def run_frame(ctx, rules=("frame.affine",), want_cipher=False):
